@@ -199,6 +199,42 @@ def check_arrays(ctx, values: list[int], bt):
                 if r[0] != "ok" or y[0].ticks != probe or (len(values) > 1 and y[1].ticks != values[1]):
                     ctx.violation(path=f"{acls.__name__}.pickle{proto}.setitem", ticks=probe, observed=show(r) if r[0] != "ok" else y[0].ticks,
                                   required=probe)
+        # short histories of every mutator on one array object (whatever bookkeeping an implementation keeps between calls - spare
+        # room, views, cached records): after each step the records are bit for bit those of the list of tick counts
+        import copy as _copy
+        import random as _random
+        hr = _random.Random(len(values) * 7919 + (0 if cls is bt.TimeDelta else 1))
+        pool = (values[:40] or [0]) + [0, 1, -1, I128_MAX, I128_MIN]
+        pool = [t for t in pool if I128_MIN <= t <= I128_MAX]
+        for h in range(120):
+            a3, l3, trace = acls(), [], []
+            for step in range(hr.randint(3, 14)):
+                op = hr.choice(["append", "append", "append", "reverse", "extend", "insert", "set", "pop", "del", "pickle", "copy", "slice-set", "iadd", "clear"])
+                t = hr.choice(pool)
+                try:
+                    if op == "append": a3.append(cls.from_ticks(t)); l3.append(t)
+                    elif op == "reverse": a3.reverse(); l3.reverse()
+                    elif op == "extend": a3.extend([cls.from_ticks(t), cls.from_ticks(0)]); l3.extend([t, 0])
+                    elif op == "iadd": a3 += [cls.from_ticks(t)]; l3 += [t]
+                    elif op == "insert": k = hr.randint(-2, len(l3) + 1); a3.insert(k, cls.from_ticks(t)); l3.insert(k, t)
+                    elif op == "set" and l3: k = hr.randrange(len(l3)); a3[k] = cls.from_ticks(t); l3[k] = t
+                    elif op == "pop" and l3: a3.pop(); l3.pop()
+                    elif op == "del" and l3: k = hr.randrange(len(l3)); del a3[k]; del l3[k]
+                    elif op == "pickle": a3 = pickle.loads(pickle.dumps(a3, protocol=hr.randint(2, pickle.HIGHEST_PROTOCOL)))
+                    elif op == "copy": a3 = hr.choice([_copy.copy, _copy.deepcopy])(a3)
+                    elif op == "slice-set": k = hr.randint(0, len(l3)); a3[k:k + 1] = [cls.from_ticks(t), cls.from_ticks(1)]; l3[k:k + 1] = [t, 1]
+                    elif op == "clear": a3.clear(); l3.clear()
+                    err = None
+                except Exception as e:                                  # noqa: BLE001 - any refusal of a valid call is reported below
+                    err = f"{type(e).__name__}: {e}"
+                trace.append(op)
+                got = None if err else [x.ticks for x in a3]
+                if err or got != l3 or a3._array.tobytes() != b"".join(struct.pack("<Qq", x % T64, x // T64) for x in l3):
+                    ctx.violation(path=f"{acls.__name__} history", history=" ".join(trace), observed=(err or str(got))[:200], required=str(l3)[:200])
+                    break
+            else:
+                continue
+            break
         ctx.count("paths", f"{acls.__name__} x {len(values)}")
 
 
